@@ -44,6 +44,7 @@ type world struct {
 	// what each enricher saw
 	seenVulns, seenPkgs []int
 	enrichRan           []bool
+	getterName          []string // the updater name the enricher's EnrichmentGetter queried the store under
 }
 
 func atoi(s string) int {
@@ -171,6 +172,7 @@ func newWorld(sc *scenario, rnd *hx.Rand) *world {
 	w.seenVulns = make([]int, ne)
 	w.seenPkgs = make([]int, ne)
 	w.enrichRan = make([]bool, ne)
+	w.getterName = make([]string, ne)
 	for i := range sc.enrichers {
 		w.enrichers = append(w.enrichers, &scriptEnricher{w: w, idx: i, s: &sc.enrichers[i]})
 	}
@@ -342,6 +344,15 @@ func (s *stubStore) Get(ctx context.Context, records []*claircore.IndexRecord, o
 
 func (s *stubStore) GetEnrichment(ctx context.Context, kind string, tags []string) ([]driver.EnrichmentRecord, error) {
 	s.w.perturb()
+	// the scripted enricher passes its index as the tag: record under which
+	// name its getter queries
+	if len(tags) == 1 {
+		if i := atoi(tags[0]); i >= 0 && i < len(s.w.getterName) {
+			s.w.mu.Lock()
+			s.w.getterName[i] = kind
+			s.w.mu.Unlock()
+		}
+	}
 	return nil, nil
 }
 
@@ -373,7 +384,7 @@ func (e *scriptEnricher) Enrich(ctx context.Context, g driver.EnrichmentGetter, 
 	if e.w.sc.cancelAtEnricher == e.idx+1 && e.w.cancel != nil {
 		e.w.cancel()
 	}
-	if _, err := g.GetEnrichment(ctx, []string{"t"}); err != nil {
+	if _, err := g.GetEnrichment(ctx, []string{strconv.Itoa(e.idx)}); err != nil {
 		return "", nil, err
 	}
 	if e.s.fail {
